@@ -1,6 +1,6 @@
 import SurfModel.Proto
-import SurfModel.Sgr
+import SurfModel.SgrRef
 def main : IO Unit := SurfModel.Proto.serve fun
-  | "c06" :: rest => SurfModel.Sgr.handle rest
+  | "c06" :: rest => SurfModel.Sgr.handleX rest
   | "c05" :: rest => SurfModel.Vt.handle rest
   | _ => "bad-op"
